@@ -30,7 +30,7 @@ pub fn one(ctx: &mut Ctx, data: &[u8], level: u8, zlib: bool, tag: &str) {
                 if c10 != c { ctx.violation(id, "clamp", format!("level {} output differs from level 10", level), replay.clone()); }
             }
             ctx.sample(format!("level={} zlib={} kind={} in_len={} comp_len={}", level, zlib, tag, data.len(), c.len()));
-            ctx.line(&format!("ENC id={} checks=rt level={} fmt={} wb=15 in={} comp={}", id, level, zlib as u8, hex(data), hex(&c)));
+            ctx.line(&format!("ENC id={} rp=RT checks=rt level={} fmt={} wb=15 in={} comp={}", id, level, zlib as u8, hex(data), hex(&c)));
         }
     }
 }
